@@ -181,6 +181,8 @@ def main(prop, argv=None):
     ap.add_argument('--first', type=int, default=0, help='first run index')
     ap.add_argument('--digest-dump', help='write {index: digest} for the determinism self-test')
     ap.add_argument('--keep-going', action='store_true')
+    ap.add_argument('--stop-first', action='store_true',
+                    help='stop generating runs at the first violation no known finding matches (self-tests)')
     ap.add_argument('--max-report', type=int, default=6)
     ap.add_argument('--no-regressions', action='store_true')
     a = ap.parse_args(argv)
@@ -242,6 +244,7 @@ def _explore(prop, a, t_start):
     pending = set()
     recheck = []
     harness_error = None
+    stop_findings = None
     counter = ctx.Value('i', 0)
     with ProcessPoolExecutor(max_workers=workers, mp_context=ctx, initializer=_worker_init,
                              initargs=(counter,)) as ex:
@@ -276,6 +279,11 @@ def _explore(prop, a, t_start):
                     _merge(agg, out)
                 if agg['viol'] and not a.keep_going and len({vkey(x['v']) for x in agg['viol']}) >= 8:
                     idx = end       # enough distinct violations: stop generating
+                if a.stop_first and agg['viol'] and idx < end:
+                    if stop_findings is None:
+                        stop_findings = load_findings()
+                    if any(match_finding(stop_findings, prop.ID, x['v']) is None for x in agg['viol']):
+                        idx = end
             # determinism spot check: re-run ~2% of the seeds in another worker process
             if harness_error is None and agg['seeds']:
                 keys = sorted(agg['seeds'])
